@@ -8,7 +8,8 @@ Inductive cop :=
   | CRemote (e : entry)                     (* insert_remote_entry of a valid entry *)
   | CInsert (au : N) (k : bytes) (hash len now : N)
   | CDelete (au : N) (k : bytes) (now : N)
-  | CFlush.
+  | CFlush
+  | CSnap.                                  (* a read through snapshot() / snapshot_owned(): list_namespaces, list_authors, get_many, content_hashes *)
 
 Record probe := mkProbe {
   p_op : N;                                 (* crash right after operation number p_op (from 0) ... *)
@@ -30,12 +31,12 @@ Definition entry_of (ns : N) (o : cop) : option entry :=
   | CRemote e => Some e
   | CInsert au k h l now => Some (mkE ns au k now l h)
   | CDelete au k now => Some (mkE ns au k now 0 EHASH)
-  | CFlush => None
+  | CFlush | CSnap => None
   end.
 (** local writes do not read the download policy afterwards *)
 Definition micro_of (ns : N) (T : tables) (o : cop) : list micro :=
   match o with
-  | CFlush => [MCommit]
+  | CFlush | CSnap => [MCommit]
   | CRemote e => MTables (* open_replica *) :: put_micro KS EHASH T e
   | _ => match entry_of ns o with
          | Some e => MTables (* open_replica *) ::
